@@ -45,7 +45,13 @@ func modelFor(name, kind string) modelField {
 	case kind == kR:
 		return modelField{kind, " foo (>= 1.0),\n bar | baz", []string{"foo (>= 1.0), bar | baz"}}
 	case kind == kLc:
-		return modelField{kind, " alpha, beta,\n gamma delta", []string{"alpha", "beta", "gamma delta"}}
+		// the first physical line is longer than any reader buffer (real Binary / Depends lines are)
+		elems := []string{"alpha", "beta"}
+		for i := 0; i < 430; i++ {
+			elems = append(elems, fmt.Sprintf("pkg-%04d", i))
+		}
+		text := " " + strings.Join(elems, ", ") + ",\n gamma delta"
+		return modelField{kind, text, append(elems, "gamma delta")}
 	case kind == kLb:
 		return modelField{kind, " alpha beta\n gamma", []string{"alpha", "beta", "gamma"}}
 	case kind == kM:
